@@ -38,6 +38,10 @@ TEMPLATES = {
     # a tie from the repeated section into its first ending: the second visit of A must not tie into the first ending's copy
     "volta_tie": dict(sections="ABC", marks=[("repeat", "A", "B"), ("ending", "1", "B"), ("ending", "2", "C")],
                       maximal="ABAC", minimal="AC", n_variants=None, tie=True),
+    # a da capo / dal segno at the end without fine or coda: the jump is taken exactly once
+    "dacapo_plain": dict(sections="AB", marks=[("dacapo", "B")], maximal="ABAB", minimal="AB", n_variants=None),
+    "dalsegno_plain": dict(sections="ABC", marks=[("segno", "B"), ("dalsegno", "C")], maximal="ABCBC", minimal="ABC", n_variants=None),
+    "dacapo_rep": dict(sections="ABC", marks=[("repeat", "A", "A"), ("dacapo", "C")], maximal="AABCAABC", minimal="ABC", n_variants=None),
     "dacapo_fine": dict(sections="AB", marks=[("fine", "A"), ("dacapo", "B")], maximal="ABA", minimal=None, n_variants=None),
 }
 
@@ -244,10 +248,10 @@ def make(template, update_ids=True):
 
 def _inst(tier):
     out = [{"template": "plain"}, {"template": "repeat_mid"}, {"template": "volta"}, {"template": "repeat_start", "update_ids": False},
-           {"template": "dacapo_fine"}, {"template": "nested"}, {"template": "repeat_mid_inner"}, {"template": "segno_coda"}, {"template": "volta_tie"}]
+           {"template": "dacapo_fine"}, {"template": "nested"}, {"template": "repeat_mid_inner"}, {"template": "segno_coda"}, {"template": "volta_tie"}, {"template": "dacapo_plain"}]
     if tier != "quick":
         out += [{"template": "two_repeats"}, {"template": "plain_tie"}, {"template": "repeat_mid_tie"}, {"template": "repeat_mid", "update_ids": False}, {"template": "volta", "update_ids": False},
-                {"template": "dacapo_coda"}, {"template": "segno_coda", "update_ids": False}]
+                {"template": "dacapo_coda"}, {"template": "segno_coda", "update_ids": False}, {"template": "dalsegno_plain"}, {"template": "dacapo_rep"}]
     return out
 
 
@@ -259,7 +263,7 @@ HARNESSES = [
                  "score.unfold_part_maximal", "score.unfold_part_minimal", "score.iter_unfolded_parts",
                  "music.update_note_ids_after_unfolding", "ReplaceRefMixin.replace_refs"],
       bounds="templates: no repeat, simple repeat at the start / in the middle, nested repeats, a repeated section holding a tie and a grace note, two independent repeats, first/second "
-             "ending, da capo al fine, dal segno al coda and da capo al coda (minimal unfolding); 2-4 sections with symbolic lengths 1..10^4 divisions; one note per section, a tie "
+             "ending, plain da capo / dal segno, da capo al fine, dal segno al coda and da capo al coda (minimal unfolding); 2-4 sections with symbolic lengths 1..10^4 divisions; one note per section, a tie "
              "over the first and a slur over the last section boundary; update_ids on/off",
       outside="the maximal unfolding of coda layouts, three endings, division or signature changes inside sections"),
 ]
